@@ -39,6 +39,11 @@ def tasks(tier, seed):
             cfg = configs.cfg("SOO", part, K, configs.BOXES[box], n=100, h_max=hm)
             ts.append({"kind": "algo", "label": "full/SOOcap%d/%s" % (hm, part), "cfg": cfg, "mode": "full", "T": T if part == "Binary" else min(T, 9),
                        "R": list(configs.R2) if T > 9 else list(configs.R3), "cost": 4})
+    # ... and one round past saturation on a few scripts: on the unchanged tree SOO.pull then never returns (the hang
+    # guard ends the execution, counted as a crash); code that evaluates below the cap instead is reported
+    cfg = configs.cfg("SOO", "Binary", None, configs.BOXES["u1"], n=100, h_max=2)
+    ts.append({"kind": "algo", "label": "dev/SOOcap2/saturated", "cfg": cfg, "mode": "dev", "T": 8, "R": list(configs.R2), "base": "peak",
+               "k": 1 if tier == "quick" else 2, "cost": 60})
     for i, cfg in enumerate(_cfgs(tier)):
         lab = "%s/%s%s/%dd/%d" % (cfg["algo"], cfg["part"], cfg["K"] or "", len(cfg["domain"]), i)
         d2 = (cfg["part"] == "Binary" and len(cfg["domain"]) == 2) or "Random" in cfg["part"]
